@@ -189,10 +189,12 @@ func RunRegistry(env *Env, plan *RegistryPlan) {
 		hmu.Unlock()
 	}
 	stamp := func(s string) uint64 { simrt.Logf("%s", s); return simrt.Seq() }
-	started := map[string]bool{}
-	inflight := map[string]int{}
-	opGen := map[string]int{}
-	ambiguous := map[string]bool{}
+	// keyed by the torrent object, not by id: an id can be removed and added again while calls
+	// on the old object are still running
+	started := map[*torrent.Torrent]bool{}
+	inflight := map[*torrent.Torrent]int{}
+	opGen := map[*torrent.Torrent]int{}
+	ambiguous := map[*torrent.Torrent]bool{}
 	var smu sync.Mutex
 	trkN := 0
 	addedTrk := map[string][]string{} // id -> tracker URLs whose AddTracker returned nil
@@ -228,11 +230,7 @@ func RunRegistry(env *Env, plan *RegistryPlan) {
 			var rerr error
 			node.In(func() { rerr = node.Sess.RemoveTorrent(op.ID, op.Keep) })
 			smu.Lock()
-			delete(started, op.ID)
 			delete(addedTrk, op.ID)
-			// a start/stop that is still running acts on the removed incarnation: whatever it
-			// records must not be held against a torrent added under the same id afterwards
-			opGen[op.ID]++
 			smu.Unlock()
 			simrt.Logf("c%d return remove err=%v", client, rerr)
 			record(client, in, call, regOut{Err: rerr != nil})
@@ -267,10 +265,10 @@ func RunRegistry(env *Env, plan *RegistryPlan) {
 			var g0 int
 			if track {
 				smu.Lock()
-				alone = inflight[op.ID] == 0
-				inflight[op.ID]++
-				opGen[op.ID]++
-				g0 = opGen[op.ID]
+				alone = inflight[t] == 0
+				inflight[t]++
+				opGen[t]++
+				g0 = opGen[t]
 				smu.Unlock()
 			}
 			var cerr error
@@ -296,15 +294,15 @@ func RunRegistry(env *Env, plan *RegistryPlan) {
 			})
 			if track {
 				smu.Lock()
-				inflight[op.ID]--
-				if alone && opGen[op.ID] == g0 {
+				inflight[t]--
+				if alone && opGen[t] == g0 {
 					// nothing else touched the flag of this torrent while we ran
 					if cerr == nil {
-						started[op.ID] = op.Kind == "start"
+						started[t] = op.Kind == "start"
 					}
-					delete(ambiguous, op.ID)
+					delete(ambiguous, t)
 				} else {
-					ambiguous[op.ID] = true
+					ambiguous[t] = true
 				}
 				smu.Unlock()
 			}
@@ -498,14 +496,14 @@ func RunRegistry(env *Env, plan *RegistryPlan) {
 		}
 		// restart: close and reopen on the same DB and disk
 		if ph < phases-1 || phases == 1 {
+			var live []*torrent.Torrent
+			node.In(func() { live = node.Sess.ListTorrents() })
 			smu.Lock()
 			wasStarted := map[string]bool{}
-			for k, v := range started {
-				wasStarted[k] = v
-			}
 			wasAmbiguous := map[string]bool{}
-			for k, v := range ambiguous {
-				wasAmbiguous[k] = v
+			for _, t := range live {
+				wasStarted[t.ID()] = started[t]
+				wasAmbiguous[t.ID()] = ambiguous[t]
 			}
 			smu.Unlock()
 			cerr := node.Close()
@@ -521,8 +519,6 @@ func RunRegistry(env *Env, plan *RegistryPlan) {
 						// the id is free again in the coming phases: nothing known about the
 						// refused torrent applies to a torrent added under it later
 						smu.Lock()
-						delete(started, id)
-						delete(ambiguous, id)
 						delete(addedTrk, id)
 						smu.Unlock()
 					}
@@ -562,6 +558,19 @@ func RunRegistry(env *Env, plan *RegistryPlan) {
 					simrt.Violate("C14", "restart.extra_torrent", "torrent %q appeared across a restart", id)
 				}
 			}
+			// the new session has new torrent objects: what is known about each id moves over
+			var reloaded []*torrent.Torrent
+			node.In(func() { reloaded = node.Sess.ListTorrents() })
+			smu.Lock()
+			for _, t := range reloaded {
+				if a, ok := after[t.ID()]; ok {
+					started[t] = a.Started
+					if wasAmbiguous[t.ID()] {
+						ambiguous[t] = true
+					}
+				}
+			}
+			smu.Unlock()
 		}
 	}
 	// resume record round trip with generated field values
